@@ -1451,6 +1451,8 @@ class ArgumentParser(ParserDeprecations, ActionsContainer, ArgumentLinking, argp
                         value[k] = action.type(v)  # type: ignore[operator]
             except (TypeError, ValueError) as ex:
                 raise TypeError(f'Parser key "{key}": {ex}') from ex
+        if isinstance(action, argparse._AppendAction) and value is not None and not isinstance(value, list):
+            raise TypeError(f'Parser key "{key}": expected a list of values. Got value: {value!r}')
         if not is_subcommand and action.choices:
             vals = value if _is_action_value_list(action) else [value]
             if not isinstance(vals, list):
